@@ -30,6 +30,6 @@ m = {"version": 1, "setup_cmd": "./setup.sh",
      "engines": [{"name": "lean4-proof+correspondence", "path": "/verif/check", "serves_properties": sorted(BUILT),
                   "kind_free_text": "Lean 4.33 + Mathlib theorems over hand/generated models (lean/), Python AST->Lean translator (tools/py2lean.py), native Lean driver executing the models, Python harness running the real eqsig in-process (harness/)"}],
      "checks": checks, "not_applicable": na,
-     "notes": "All 20 properties are intended to be claimed at level proof; properties whose check is not built yet are temporarily listed under not_applicable. Genuine defects repaired in /repo by 'fix:' commits and open findings are listed in known_findings.json."}
+     "notes": "All 20 properties are claimed at level proof (none is not_applicable). Genuine defects repaired in /repo by 'fix:' commits and open findings are listed in known_findings.json."}
 json.dump(m, open(os.path.join(HERE, '..', 'MANIFEST.json'), 'w'), indent=1)
 print('built:', sorted(BUILT), 'not_applicable:', [x['property_id'] for x in na])
